@@ -211,8 +211,8 @@ TIE = {
     'C01': (['Vise.Tie.Render'], "render.Sizer.Check (the comparison every size theorem rests on) and render.Menu.reset"),
     'C02': (['Vise.Tie.StateNav', 'Vise.Tie.Render'], "state.State.Next / Previous / Sides / Top / Same (page index arithmetic and which lateral entries are on offer), render.Menu.reset (re-arming of the lateral entries) and render.Sizer.Check"),
     'C03': (['Vise.Tie.StateNav'], "state.State.Previous (IndexError on page 0, the 'no match' case of '<') and Next / Top / Same"),
-    'C04': (['Vise.Tie.StateNav', 'Vise.Tie.StateStack'], "state.State.Next / Previous / Same / Top / Sides (page index, move counter, last move) and Down / Up (the navigation stack, with both explicit panics of Down)"),
-    'C08': (['Vise.Tie.StateStack'], "state.State.Down and Up (the navigation stack; `none` of the regenerated definition is a run-time panic: the two explicit panics of Down are the only ones, no index or slice expression is ever out of range)"),
+    'C04': (['Vise.Tie.StateNav', 'Vise.Tie.StateStack'], "state.State.Next / Previous / Same / Top / Sides (page index, move counter, last move) and Down / Up / Where / Depth (the navigation stack, with both explicit panics of Down)"),
+    'C08': (['Vise.Tie.StateStack'], "state.State.Down, Up, Where and Depth (the navigation stack; `none` of the regenerated definition is a run-time panic: the two explicit panics of Down are the only ones, no index or slice expression is ever out of range)"),
     'C05': (['Vise.Tie.Cache'], "cache.Cache.checkCapacity and Levels"),
     'C06': (['Vise.Tie.StateFlags'], "state.IsWriteableFlag and toByteSize"),
     'C09': (['Vise.Tie.Cache'], "cache.Cache.checkCapacity and Levels"),
